@@ -49,8 +49,6 @@ for _csig in stdlib_funcs:
 # matter if the wrong thing gets written in a branch where defeat is
 # inevitable.  But it's probably a pointless optimization.
 
-# TODO: test for stack overflow in write_int,
-#  May need up to 4 words of stack space: 1 for RA + 3 for buffer.
 
 stdlib_lines = list(filter(None, textwrap.dedent("""
     all_is_win:
@@ -154,6 +152,15 @@ stdlib_lines = list(filter(None, textwrap.dedent("""
 
 
     write_int:
+        ; The digits are written downwards starting in the argument
+        ; slot.  A number has fewer than 3w digits, so 1 word for RA
+        ; plus 3 words of buffer always suffice.
+        j write_int_no_overflow
+        sub [r1], [fp], [ap]
+        hgeu [r1], 4w
+        j stack_overflow
+        halt
+        write_int_no_overflow:
         add [r0], [fp], -1w
         lwso [r2], [fp], -2w
         j write_int_pos
